@@ -7,6 +7,7 @@ open SamVerif.Scope
 #print axioms rename_involutive
 #print axioms rename_tree_commutes
 #print axioms rename_member_commutes
+#print axioms rename_changes_names_only
 #print axioms rename_preserves_resolution
 #print axioms rename_module_commutes
 #print axioms rename_module_preserves_resolution
